@@ -25,7 +25,7 @@ func init() {
 		Assumptions: []string{"a failed Protect leaves the previous protection in place", "buffers that only ever held discarded random fill (createRandom failure paths) need no wipe: nobody was given that key"},
 		Tech:        "static analysis: must-release ownership of mapped/locked pages on SSA over all error exits, error-discipline, dominance ordering; both SecretFactory back ends",
 		NeedU1:      true,
-		Rules:       []func(*Ctx){ruleC12ErrorsSurface, ruleC12FailedCreationCleans, ruleC12WipeBeforeRelease, ruleC12FailedAccessNeutral, ruleC12CloseRetryableBalanced, ruleC12TeardownOnce, ruleC12FailedCreationReleasesOnce, ruleC11Bracket, ruleC11ProtectionTransitions, ruleC03FreshNonce, ruleC12FailedCreationDisarms, nilContradictionRule("C12", false, "github.com/godaddy/asherah/go/securememory"), ruleC11CloseWaitsAndOrders, ruleSecretFlagsMonotonic, lockBalancedRule("C11", 10, lockDomSpec{pkgProt, "secretInternal", "rw"}, lockDomSpec{pkgMemg, "secret", "rw"})},
+		Rules:       []func(*Ctx){ruleC12ErrorsSurface, ruleC12FailedCreationCleans, ruleC12WipeBeforeRelease, ruleC12FailedAccessNeutral, ruleC12CloseRetryableBalanced, ruleC12TeardownOnce, ruleC12FailedCreationReleasesOnce, ruleC11Bracket, ruleC11ProtectionTransitions, ruleC03FreshNonce, ruleC12FailedCreationDisarms, nilContradictionRule("C12", false, "github.com/godaddy/asherah/go/securememory"), ruleC11CloseWaitsAndOrders, ruleSecretFlagsMonotonic, lockBalancedRule("C11", 10, lockDomSpec{pkgProt, "secretInternal", "rw"}, lockDomSpec{pkgMemg, "secret", "rw"}), ruleC12ReaderReportsAccessErrors, ruleC11NoStaleCounterDecision},
 	})
 }
 
